@@ -142,7 +142,7 @@ CHECKS['C10'] = dict(
     text="Proof (partial): the class-trait predicates of CPPStructType (get_virtual_funcs splice/erase/append, is_abstract, is_default/copy_constructible(min_vis), is_destructible, "
          "after the abstract-base repair) and the C++ rules are one Coq function with a mode; for EVERY class table inside a decidable fragment (no const member without initialiser, "
          "no C(C&), only public non-deleted destructors, no virtual bases; otherwise arbitrary depth/width/access/members/special members) both modes give the same five traits for "
-         "every class; never a constructor for an abstract class; each excluded shape is refuted by a witness (recorded findings). The Coq C++ rules are validated by g++ std::is_* on "
+         "every class; never a constructor for an abstract class; an inherited pure virtual destructor does not make a class abstract (the pinned code is refuted, repaired); each excluded shape is refuted by a witness (recorded findings). The Coq C++ rules are validated by g++ std::is_* on "
          "every generated hierarchy; parse_file -p must equal g++ (spec) and the model (correspondence); exported constructors are read from the database.",
     note=TB + "C++ abstractness through virtual-base dominance is not modelled (compared with g++ only); =default special members are not generated; g++ 12 traits are the reference.",
     technique="Coq proof (induction over the class table with pointwise-related environments) + three-way differential check parse_file / extracted model / g++ type traits",
@@ -221,13 +221,16 @@ CHECKS['C02'] = dict(
          "take str, a class parameter takes the class and its derived classes, bool takes anything). For EVERY class hierarchy in which a base ranks below its derived classes, every "
          "overload list in that order and every argument tuple: if the set uses one C++ type per Python category and its members differ in category somewhere, a call whose arguments "
          "correspond exactly to overload o runs o; the sort is proved to produce such an order (asymmetry and negative transitivity of the comparison); sets with two integer widths and bool "
-         "arguments are refuted by witnesses (recorded finding, confirmed on the built module). Correspondence/specification by EXECUTION: generated libraries are wrapped, compiled "
+         "arguments are refuted by witnesses (recorded finding, confirmed on the built module). The ARITY TABLE (map_sets filled per accepted argument count, collapse_default_remaps, the "
+         "switch on parameter_count) is modelled too and proved exact: for every set of overloads with any ranges of accepted counts and every count, the overloads the generated code can "
+         "run are exactly those that take that count (the assignment written the other way round is refuted); the table of every overloaded wrapper is read back from the generated code "
+         "and compared with the extracted one. Correspondence/specification by EXECUTION: generated libraries are wrapped, compiled "
          "into an extension module and imported in CPython: names and camelCase aliases, exact-category overload calls, derived instances for base parameters, defaults and keywords, "
          "properties, sequences, operators, enums, integer boundaries of five widths (OverflowError beyond), TypeError with state unchanged, live-object counts for returned copies and "
-         "borrowed pointers, zero live objects at exit.",
-    note=TB + "the 9000-line generator is not modelled beyond the dispatch order and acceptance relation; no sanitizer inside the interpreter (memory errors show as crashes or wrong object "
+         "borrowed pointers, zero live objects at exit, const/non-const pairs on const and non-const objects, defaulted overloads sharing their lowest arity with a sibling.",
+    note=TB + "the 9000-line generator is not modelled beyond the arity table, the dispatch order and the acceptance relation (the const-first rule of RemapCompareLess is tested, not modelled); no sanitizer inside the interpreter (memory errors show as crashes or wrong object "
          "counts); built against harness/shims register_type.h and dconfig.h.",
-    technique="Coq proof (first-accepting dispatch over the sorted overload list selects the exactly matching overload; sort order lemma; refuting witnesses) + execution of the built extension module against expected outcomes and the extracted dispatcher",
+    technique="Coq proof (first-accepting dispatch over the sorted overload list selects the exactly matching overload; sort order lemma; the collapsed arity table is exact; refuting witnesses) + generated switch read back against the extracted table + execution of the built extension module against expected outcomes and the extracted dispatcher",
     ref="5/C02")
 
 PENDING = {
